@@ -23,7 +23,7 @@ func init() {
 				"(once) guard/marker rule: the state the skip gate READS must intersect the state the punishment WRITES, otherwise a second evidence entry against the same validator in one block is punished again (found: the gate read only Status and list membership, which the punishment never changes — repaired by also skipping validators already marked to-drop). " +
 				"NOT decided: the 5 % arithmetic and its rounding, that Tendermint's vote info is truthful.",
 			Assumptions: stdAssumptions,
-			Rules:       []string{"C18.jail", "C18.absent", "C18.byz", "C18.once", "C18.window"},
+			Rules:       []string{"C18.jail", "C18.absent", "C18.byz", "C18.once", "C18.window", "C18.fresh"},
 		},
 		Run: runC18,
 	})
@@ -109,6 +109,19 @@ func constOf(c *core.Ctx, pkg, name string) (int64, bool) {
 
 func runC18(c *core.Ctx) {
 	defer checkAbsentWindowPersisted(c, "C18.window")
+	defer func() {
+		// records built per iteration in the consensus packages (the validator list of
+		// SetNewValidators with its per-validator absence window and accrued reward is one)
+		var fns []*ssa.Function
+		for _, fn := range c.AllFns {
+			pk := core.PkgOf(fn)
+			if (strings.HasPrefix(pk, core.PkgState+"/") || pk == core.PkgState || pk == "coreV2/minter") && fn.Synthetic == "" && !legacyV1(fn) {
+				fns = append(fns, fn)
+			}
+		}
+		n := checkPerIterationRecords(c, "C18.fresh", fns)
+		c.Floor("C18.fresh", n, 5, "records built per loop iteration with pointer-typed parts")
+	}()
 	// ---- jail
 	for _, m := range LiveModels(c, "C18.jail") {
 		if m.H.TypeName != "SetCandidateOnData" {
@@ -228,7 +241,7 @@ func runC18(c *core.Ctx) {
 		return
 	}
 	var pf, pv, pc *core.Site
-	for _, s := range core.Sites(begin) {
+	for _, s := range c.GroupSites(begin) {
 		switch {
 		case strings.HasSuffix(s.Callee, ".PunishFrozenFundsWithID"):
 			pf = s
@@ -242,9 +255,22 @@ func runC18(c *core.Ctx) {
 		c.Bad("C18.byz", "BeginBlock/shape", begin.Pos(), "the three punish calls are not all present in BeginBlock")
 		return
 	}
-	c.Check(core.Dominates(pf.Instr, pv.Instr) && core.Dominates(pv.Instr, pc.Instr), "C18.byz", "BeginBlock/order", pc.Pos(), "frozen funds ≺ validator ≺ candidate", "the punish order changed: PunishByzantineCandidate re-freezes the remaining stakes, which must happen after the frozen-fund slash or they are slashed twice")
-	fromOK := core.Path(pf.Arg(0)) == "req.Header.Height"
+	c.Check(pf.Fn == pv.Fn && pv.Fn == pc.Fn && core.Dominates(pf.Instr, pv.Instr) && core.Dominates(pv.Instr, pc.Instr), "C18.byz", "BeginBlock/order", pc.Pos(), "frozen funds ≺ validator ≺ candidate", "the punish order changed: PunishByzantineCandidate re-freezes the remaining stakes, which must happen after the frozen-fund slash or they are slashed twice")
+	fromOK := core.Path(c.CallerArg(pf.Arg(0))) == "req.Header.Height"
 	toOK, _ := isBlockPlusPeriodPath(pf.Arg(1), "GetUnbondPeriod", "req.Header.Height")
+	if !toOK {
+		// inside a helper the block height is a parameter: height + GetUnbondPeriod() with that
+		// parameter being what the caller computed from req.Header.Height
+		if bin, ok := core.Unwrap(pf.Arg(1)).(*ssa.BinOp); ok && bin.Op == token.ADD {
+			x, y := bin.X, bin.Y
+			if strings.Contains(core.Path(x), "GetUnbondPeriod") {
+				x, y = y, x
+			}
+			if strings.Contains(core.Path(y), "GetUnbondPeriod") && core.Path(c.CallerArg(x)) == "req.Header.Height" {
+				toOK = true
+			}
+		}
+	}
 	idOK := strings.HasSuffix(core.Path(pf.Arg(2)), ".ID") && strings.Contains(core.Path(pf.Arg(2)), "GetCandidateByTendermintAddress(")
 	c.Check(fromOK && toOK && idOK, "C18.byz", "BeginBlock/frozen-range", pf.Pos(), "PunishFrozenFundsWithID(height, height+GetUnbondPeriod(), candidate.ID)", fmt.Sprintf("frozen-fund slash range/id changed: from=%s to-ok=%v id=%s", core.Path(pf.Arg(0)), toOK, core.Path(pf.Arg(2))))
 	c.Check(core.SameValue(pv.Arg(0), pc.Arg(1)) || core.Path(pv.Arg(0)) == core.Path(pc.Arg(1)), "C18.byz", "BeginBlock/same-address", pc.Pos(), "validator and candidate punished for the same address", "validator and candidate punishments use different addresses")
